@@ -160,12 +160,19 @@ def generate(tier, seed, work, stats):
             extra.append(dict(c, start="X0", family=c["family"] + "-renamed-start"))
         if i % 15 == 4:
             extra.append(dict(c, repeat_pop=True, family=c["family"] + "-repeated-consumption-rule"))
+        if i % 7 == 3:
+            extra.append(dict(c, idxvals="int", family=c["family"] + "-integer-index-symbols"))
     return cases + extra
+
+
+IDX_VALUES = {}       # abstract index symbol -> concrete value (set by replay for the case at hand)
 
 
 def mk_rules(rules):
     from pyformlang.indexed_grammar import EndRule, DuplicationRule, ProductionRule, ConsumptionRule
     out = []
+    ix = lambda x: IDX_VALUES.get(x, x)
+    rules = [[r[0], r[1], r[2], ix(r[3])] if r[0] == "push" else ([r[0], ix(r[1]), r[2], r[3]] if r[0] == "pop" else r) for r in rules]
     for r in rules:
         if r[0] == "end":
             out.append(EndRule(r[1], r[2]))
@@ -213,6 +220,9 @@ def replay(case):
     import pyformlang.regular_expression      # IndexedGrammar.intersection refers to pyformlang.regular_expression lazily
     from pyformlang.indexed_grammar import Rules, IndexedGrammar as _IG
     case, start = renamed(case)
+    IDX_VALUES.clear()
+    if case.get("idxvals") == "int":       # index symbols that are not strings (the abstract grammar is the same)
+        IDX_VALUES.update({"f": 1, "g": (0, 1), "h": 2})
 
     def IndexedGrammar(rules):
         return _IG(rules) if start == "S" else _IG(rules, start)
